@@ -679,3 +679,23 @@ func (d *DB) StoredPeriods(table string) (file, mem map[string]map[int64]bool, e
 	}
 	return decode(dump.FileRows, dump.Fields), decode(dump.MemRows, dump.MemFields), nil
 }
+
+// QuiesceN waits until the table has handled n entries since this instance
+// was opened (and the row store has applied what it was handed).
+func (d *DB) QuiesceN(table string, n int) bool {
+	ok := zenodb.VerifWait(d.Z, d.Timeout, func(counters func(table string) (int, int, int, int)) bool {
+		_, done, submit, applied := counters(strings.ToLower(table))
+		return done >= n && applied >= submit
+	})
+	if !ok {
+		d.TimedOut = true
+	}
+	return ok
+}
+
+// QuiesceWAL re-counts the entries of every stream's WAL (for writers that
+// bypass the driver, e.g. the web insert endpoint) and waits for them.
+func (d *DB) QuiesceWAL() bool {
+	d.computeExpected()
+	return d.Quiesce()
+}
